@@ -381,7 +381,7 @@ func cmdCheck(args []string) int {
 		totalInstr += st.Instrs
 		for _, s := range []*struct {
 			a, b, c int
-			t    time.Duration
+			t       time.Duration
 		}{solverStats(e)} {
 			q["sat"] += s.a
 			q["unsat"] += s.b
@@ -519,11 +519,11 @@ func cmdCheck(args []string) int {
 
 func solverStats(e *sx.Explorer) *struct {
 	a, b, c int
-	t    time.Duration
+	t       time.Duration
 } {
 	r := &struct {
 		a, b, c int
-		t    time.Duration
+		t       time.Duration
 	}{}
 	for _, s := range e.Solvers() {
 		r.a += s.NSat
@@ -612,11 +612,11 @@ func countInstrs(f *ssa.Function) int {
 // ---- replay ----
 
 type replayFile struct {
-	Property string        `json:"property"`
-	Pkg      string        `json:"pkg"` // relative package dir
-	Func     string        `json:"func"`
-	Expect   sx.Finding    `json:"expect"`
-	Inputs   []sx.InputVal `json:"inputs"`
+	Property string            `json:"property"`
+	Pkg      string            `json:"pkg"` // relative package dir
+	Func     string            `json:"func"`
+	Expect   sx.Finding        `json:"expect"`
+	Inputs   []sx.InputVal     `json:"inputs"`
 	Params   map[string]string `json:"params,omitempty"`
 	Mode     string            `json:"mode"` // "native" (go test against the real build) | "engine" (concrete re-execution in gosx with the same stubs)
 	Opts     map[string]string `json:"opts,omitempty"`
